@@ -457,6 +457,81 @@ fn helper_case(k: usize) -> Option<String> {
     None
 }
 
+// ---------------------------------------------------------------- C04: a member is optional iff Option<T> or bare serde(default)
+const OPT_BASES: [&str; 6] = ["u32", "String", "Vec<u32>", "Other", "T", "HashMap<String, u32>"];
+/// (type shape, Option depth as the property reads it): smart pointers are transparent
+const OPT_SHAPES: [(&str, usize); 6] = [("X", 0), ("Option<X>", 1), ("Option<Option<X>>", 2), ("Box<Option<X>>", 1), ("Option<Box<X>>", 1), ("Option<Vec<Option<X>>>", 1)];
+/// (attribute text, does it make the member optional?, the wire name it sets)
+const OPT_ATTRS: [(&str, bool, Option<&str>); 7] = [
+    ("", false, None), ("#[serde(default)]", true, None), ("#[serde(default, rename = \"renA\")]", true, Some("renA")), ("#[serde(rename = \"renB\", default)]", true, Some("renB")),
+    ("#[serde(default = \"some_fn\")]", false, None), ("#[serde(skip_serializing_if = \"Option::is_none\")]", false, None), ("#[serde(rename = \"renC\")] #[serde(default)]", true, Some("renC")),
+];
+/// the member as the property's idiom list writes it (independent of the back ends; `t` is the back end's own translation of the field's type)
+fn opt_member(lang: &str, name: &str, key: &str, t: &str, is_opt: bool, dbl: bool, dflt: bool) -> Vec<String> {
+    let optional = is_opt || dflt;
+    match lang {
+        "typescript" => vec![format!("{}{}: {}{};", key, if optional { "?" } else { "" }, t, if dbl { " | null" } else { "" })],
+        "kotlin" => vec![format!("val {}: {}{}", key, t, if is_opt { " = null" } else if dflt { "? = null" } else { "" })],
+        "swift" => vec![format!("public let {}: {}{}\n", key, t, if dflt && !is_opt { "?" } else { "" })],
+        "scala" => vec![format!("\t{}: {}", key, if is_opt { format!("{} = None", t) } else if dflt { format!("Option[{}] = None", t) } else { t.to_string() })],
+        "go" => vec![format!(" {}{} `json:\"{}{}\"`", if dflt && !is_opt { "*" } else { "" }, t, key, if optional { ",omitempty" } else { "" })],
+        _ => { let ty = if dflt && !is_opt { format!("Optional[{}]", t) } else { t.to_string() };
+               let mut decs: Vec<String> = vec![]; if key != name { decs.push(format!("alias=\"{}\"", key)); } if optional { decs.push("default=None".into()); }
+               vec![format!("    {}: {}{}\n", name, ty, if decs.is_empty() { String::new() } else { format!(" = Field({})", decs.join(", ")) })] }
+    }
+}
+/// one program: a generic struct S<T> with one field per (base, shape, attribute) of the slice `cases`, and the same fields in a struct variant
+/// member names without digits or underscores (back ends re-case names; a plain lowercase word survives all of them)
+fn opt_name(i: usize) -> String { format!("mem{}{}", (b'a' + (i / 26) as u8) as char, (b'a' + (i % 26) as u8) as char) }
+fn opt_program(cases: &[(usize, usize, usize)]) -> String {
+    let mut fields = String::new();
+    for (i, (b, sh, at)) in cases.iter().enumerate() { fields += &format!("    {} pub {}: {},\n", OPT_ATTRS[*at].0, opt_name(i), OPT_SHAPES[*sh].0.replace("X", OPT_BASES[*b])); }
+    format!("#[typeshare]\npub struct Other {{ pub o: u32 }}\n#[typeshare]\npub struct S<T> {{\n{}}}\n#[typeshare]\n#[serde(tag = \"t\", content = \"c\")]\npub enum E<T> {{ V {{\n{}}}, W(Option<T>), R(T) }}\n", fields, fields.replace("pub ", ""))
+}
+/// -> Some(description) when some member of the program is not written as the property prescribes
+fn opt_case(cases: &[(usize, usize, usize)]) -> Option<String> {
+    use std::collections::HashMap;
+    use typeshare_core::language::{Go, Kotlin, Language, Python, Scala, Swift, TypeScript};
+    use typeshare_core::rust_types::{RustType, SpecialRustType};
+    let src = opt_program(cases);
+    for lang in TYPE_LANGS {
+        let d = match panic::catch_unwind(|| parse_named(&src, "f.rs")) { Ok(Some(d)) => d, Ok(None) => return Some("no parsed data".into()), Err(_) => return Some("the parser panicked".into()) };
+        if !d.errors.is_empty() { return Some(format!("parse errors: {:?}", d.errors.first().map(|e| e.error.to_string()))); }
+        // what the parser recorded for the struct's fields
+        let st = d.structs.iter().find(|s| s.id.original == "S")?.clone();
+        let mut out: Vec<u8> = Vec::new();
+        let mut l: Box<dyn Language> = match lang { "typescript" => Box::new(TypeScript { no_version_header: true, ..Default::default() }), "kotlin" => Box::new(Kotlin { package: "p".into(), no_version_header: true, ..Default::default() }),
+            "swift" => Box::new(Swift { no_version_header: true, ..Default::default() }), "scala" => Box::new(Scala { package: "p".into(), no_version_header: true, ..Default::default() }),
+            "go" => Box::new(Go { package: "p".into(), no_version_header: true, ..Default::default() }), _ => Box::new(Python { no_version_header: true, ..Default::default() }) };
+        if let Err(e) = l.generate_types(&mut out, &HashMap::new(), d) { return Some(format!("{}: generation failed: {}", lang, e)); }
+        let out = String::from_utf8(out).unwrap();
+        for (i, (b, sh, at)) in cases.iter().enumerate() {
+            let f = &st.fields[i];
+            let (depth, dflt) = (OPT_SHAPES[*sh].1, OPT_ATTRS[*at].1);
+            let src_ty = OPT_SHAPES[*sh].0.replace("X", OPT_BASES[*b]);
+            // the parser's part: has_default exactly for the bare default, the Option depth of the recorded type
+            if f.has_default != dflt { return Some(format!("field `{} {}`: has_default is {} but the attribute {} the bare serde(default)", OPT_ATTRS[*at].0, src_ty, f.has_default, if dflt { "is / contains" } else { "is not" })); }
+            let got_depth = match &f.ty { RustType::Special(SpecialRustType::Option(t)) => if matches!(t.as_ref(), RustType::Special(SpecialRustType::Option(_))) { 2 } else { 1 }, _ => 0 };
+            if got_depth.min(2) != depth { return Some(format!("field of type `{}` is recorded with Option depth {} (expected {})", src_ty, got_depth, depth)); }
+            let name = opt_name(i);
+            let key = OPT_ATTRS[*at].2.map(|k| k.to_string()).unwrap_or(name.clone());
+            let t = { let mut l2: Box<dyn Language> = match lang { "typescript" => Box::new(TypeScript::default()), "kotlin" => Box::new(Kotlin::default()), "swift" => Box::new(Swift::default()), "scala" => Box::new(Scala::default()), "go" => Box::new(Go::default()), _ => Box::new(Python::default()) };
+                      match l2.format_type(&f.ty, &["T".to_string()]) { Ok(t) => t, Err(_) => continue } };
+            // Scala: the recorded finding kf-c04-scala-default (non-Option member with serde(default) is written `T = _`) is reported separately
+            if lang == "scala" && dflt && depth == 0 { continue; }
+            let go_name = if lang == "go" { let mut c = name.chars(); format!("\t{}{}", c.next().unwrap().to_uppercase(), c.as_str()) } else { String::new() };
+            for want in opt_member(lang, &name, &key, &t, depth >= 1, depth >= 2, dflt) {
+                let want = if lang == "go" { format!("{}{}", go_name, want) } else { want };
+                let n = out.matches(&want).count();
+                // the struct and the struct variant's helper type both carry the member
+                if n < 2 { return Some(format!("{}: member `{} {}: {}` must be written `{}` ({} when Option<T> or bare serde(default), type text unchanged) - found {} time(s) instead of 2", lang, OPT_ATTRS[*at].0, name, src_ty, want.trim(), if depth >= 1 || dflt { "optional" } else { "required" }, n)); }
+            }
+        }
+    }
+    None
+}
+fn opt_all_cases() -> Vec<(usize, usize, usize)> { let mut v = vec![]; for b in 0..OPT_BASES.len() { for sh in 0..OPT_SHAPES.len() { for at in 0..OPT_ATTRS.len() { v.push((b, sh, at)); } } } v }
+
 // ---------------------------------------------------------------- C13: cfg expressions vs the documented rule
 #[derive(Clone, Debug)]
 enum Cfg { Os(char), Feat, Word, Any(Vec<Cfg>), All(Vec<Cfg>), Not(Box<Cfg>) }
@@ -912,6 +987,34 @@ fn main() {
                 }
             }
             println!("no failing input among {} type expressions (depth <= 3 over 18 leaves and 14 constructors, plus qualified paths / scalars and depth 4-5 chains) x 4 positions x 6 languages x plain / prefix / type_mappings; + 2 programs whose struct-variant helper types must be declared and referred to with the same generic parameters (Kotlin, Swift, Scala)", n);
+            std::process::exit(0);
+        }
+        Some("opt-search") | Some("opt-check") => {
+            let all = opt_all_cases();
+            let report = |i: usize, m: String| { println!("WITNESS {{\"input\": {{\"case\": {}}}, \"fails\": {:?}}}", i, m); std::process::exit(1); };
+            if a[1] == "opt-check" {
+                let i: usize = a[2].parse().unwrap();
+                if i >= 1_000_000 {
+                    // the recorded Scala finding: exit 1 while it reproduces
+                    let src = "#[typeshare]\npub struct S { #[serde(default)] pub dflt: u32 }\n";
+                    let d = parse_named(src, "f.rs").unwrap();
+                    let mut out: Vec<u8> = Vec::new();
+                    use typeshare_core::language::{Language, Scala};
+                    Scala { package: "p".into(), no_version_header: true, ..Default::default() }.generate_types(&mut out, &std::collections::HashMap::new(), d).unwrap();
+                    let out = String::from_utf8(out).unwrap();
+                    if out.contains("dflt: UInt = _") && !out.contains("Option[UInt] = None") { report(i, "scala: non-Option member with serde(default) is written `dflt: UInt = _`, not as an optional member `Option[UInt] = None`".into()); }
+                    println!("input passes"); std::process::exit(0);
+                }
+                if let Some(m) = opt_case(&[all[i]]) { report(i, m); }
+                println!("input passes"); std::process::exit(0);
+            }
+            // all cases in batches (one program per batch), a failing batch is re-run member by member for the witness
+            let mut n = 0;
+            for (b, batch) in all.chunks(42).enumerate() {
+                n += batch.len();
+                if opt_case(batch).is_some() { for (j, c) in batch.iter().enumerate() { if let Some(m) = opt_case(&[*c]) { report(b * 42 + j, m); } } if let Some(m) = opt_case(batch) { report(b * 42, m); } }
+            }
+            println!("no failing input among {} members (6 base types x 6 Option / smart-pointer shapes x 7 attribute forms) x struct field and struct-variant field x 6 languages", n);
             std::process::exit(0);
         }
         Some("wire-search") | Some("wire-check") => {
